@@ -297,6 +297,10 @@ func (msg *MessageAuth) FromChunks(chunks []*MessageChunk) error {
 	var foundDelimiter bool
 	for i, b := range src {
 		if b == MessageChunkBytesDelimiter {
+			if i == len(src)-1 {
+				// nothing follows the delimiter: no room for a public key and its parity
+				return ErrIncorrectSourceBytes
+			}
 			msg.Username = string(src[:i])
 			msg.PublicKeyBytes = src[i+1 : len(src)-1]
 			msg.PublicKeyParity = src[len(src)-1]
